@@ -1,8 +1,21 @@
 # C20 — Array / String methods over any call sequence: generated histories executed through
 # real templates (runner "T" of harness/tmpl.go), judged inside Coq against Models/ArrayOps.v
-# (M = the code, S = JavaScript).  Two kinds of histories: array histories (aliasing, storage sharing,
-# state kept between calls) and string histories (receivers, separators and indices at the places where
-# a convenient library routine is not the JavaScript method; see edge_string / split_sep below).
+# (M = the code, S = JavaScript).  Three kinds of histories: array histories (aliasing, storage sharing,
+# state kept between calls), string histories (receivers, separators and indices at the places where
+# a convenient library routine is not the JavaScript method; see edge_string / split_sep below) and
+# route histories: every way a template has of making a SECOND NAME for an array - assignment, a mixin
+# parameter bound from the argument list, block content of a mixin call reading the caller's variables,
+# page data read from inside a mixin, the loop variable of an each over an array of arrays, a member of an
+# object / an element of an array that holds it, a conditional or logical expression, the result of
+# slice / pop on the holding array - followed by mutation through one name and observation through the
+# others (see class G below: gen_mixin_call / gen_each / gen_hold / gen_rehold / gen_pop).
+#
+# A case is a structured program (mixins, calls with block content, loops, holders); `flatten` erases
+# the routes: what is left is the flat history of method calls and bindings (SCall / SAlias / SPass /
+# SPrintVar of Models/ArrayOps.v) that JavaScript's semantics of those routes prescribes - every
+# parameter of every call and every member of every holder is a variable of its own in the flat
+# program.  The template that the real engine executes keeps the routes.
+import copy
 import json
 from common import *
 import tmpl
@@ -154,8 +167,34 @@ def str_class(f, s, d):
     return out
 
 
-def vname(n):
-    return b"v%d" % n
+# ------------------------------------------------------------------ variable references
+# A reference V names a variable inside a statement of a case:
+#   n                        variable vN of the main template (page data or '- var vN'); flat variable n.  Inside a
+#                            mixin body an integer names page data (a global of the template)
+#   ["L", k]                 k-th name of the enclosing mixin definition (parameters first), written f<fid>_<k>;
+#                            every call of the mixin has flat variables of its own for them
+#   ["M", Vh, j, style, Vm]  member j of the holder whose own name is Vh, written  Vh.kj | Vh["kj"] | Vh[j]
+#                            (style dot | key | idx); in the flat program it is the variable Vm
+def is_plain(V):
+    return isinstance(V, int) or V[0] == "L"
+
+
+def vname(V, fid=None):
+    if isinstance(V, int):
+        return b"v%d" % V
+    return b"f%d_%d" % (fid, V[1])
+
+
+def vexpr(V, fid=None):
+    if is_plain(V):
+        return ('id', vname(V, fid))
+    _, Vh, j, style, _ = V
+    h = vexpr(Vh, fid)
+    if style == "dot":
+        return ('dot', h, b"k%d" % j)
+    if style == "key":
+        return ('idx', h, ('str', b"k%d" % j))
+    return ('idx', h, ('num', j))
 
 
 # ------------------------------------------------------------------ JSON <-> tmpl / Coq
@@ -191,51 +230,270 @@ def elit_coq(l):
     return b"ENull" if l is None else b"(ELit " + lit_coq(l) + b")"
 
 
-def arg_expr(a):
-    return lit_expr(a["lit"]) if "lit" in a else ('id', vname(a["var"]))
+def arg_expr(a, fid=None):
+    """an argument / source expression: a literal, a variable, or a variable inside a conditional / logical
+    expression whose value it is"""
+    if "lit" in a:
+        return lit_expr(a["lit"])
+    e = vexpr(a["var"], fid)
+    w = a.get("wrap")
+    if w:
+        o = vexpr(w[1], fid)
+        if w[0] == "tern1":
+            return ('cond', ('bool', True), e, o)
+        if w[0] == "tern0":
+            return ('cond', ('bool', False), o, e)
+        if w[0] == "or":
+            return ('bin', '||', e, o)
+        return ('bin', '&&', o, e)
+    return e
 
 
 def arg_coq(a):
     return b"(ALit " + lit_coq(a["lit"]) + b")" if "lit" in a else b"(AVar %d)" % a["var"]
 
 
-def call_expr(s):
-    recv = ('id', vname(s["recv"]))
+def call_expr(s, fid=None):
+    recv = vexpr(s["recv"], fid)
     if s["f"] == "length":
         if s["args"]:
-            return ('call', ('dot', recv, b"length"), [arg_expr(a) for a in s["args"]])
+            return ('call', ('dot', recv, b"length"), [arg_expr(a, fid) for a in s["args"]])
         return ('dot', recv, b"length")
-    return ('call', ('dot', recv, s["f"].encode()), [arg_expr(a) for a in s["args"]])
+    return ('call', ('dot', recv, s["f"].encode()), [arg_expr(a, fid) for a in s["args"]])
+
+
+BAR = ('text', b"|")
+
+
+def _var(name, e):
+    return ('code', [('vars', [('var', name, e)])], False, False)
+
+
+def nodes_of(stmts, case, fid=None):
+    """pug nodes of a statement list; fid: the mixin definition the statements stand in (None: main template)"""
+    nodes = []
+    for s in stmts:
+        op = s["op"]
+        if op == "call":
+            e = call_expr(s, fid)
+            if s["mode"] == "bind":
+                nodes.append(_var(vname(s["r"], fid), e))
+            elif s["mode"] == "print":
+                nodes += [('code', [('expr', e)], True, False), BAR]
+            else:
+                nodes += [('code', [('expr', e)], False, False), BAR]
+        elif op == "alias":
+            nodes.append(_var(vname(s["x"], fid), arg_expr({"var": s["y"], "wrap": s.get("wrap")}, fid)))
+        elif op == "printvar":
+            nodes += [('code', [('expr', vexpr(s["x"], fid))], True, False), BAR]
+        elif op == "hold":
+            es = [arg_expr(a, fid) for a in s["src"]]
+            e = ('obj', [(b"k%d" % j, x) for j, x in enumerate(es)]) if s["kind"] == "obj" else ('arr', es)
+            nodes.append(_var(vname(s["h"], fid), e))
+        elif op == "rehold":
+            nodes.append(_var(vname(s["h"], fid), ('call', ('dot', vexpr(s["of"], fid), b"slice"), [('num', s["from"])])))
+        elif op == "pop":
+            nodes.append(_var(vname(s["x"], fid), ('call', ('dot', vexpr(s["h"], fid), b"pop"), [])))
+        elif op == "mixin":
+            m = case["mixins"][s["m"]]
+            blk = nodes_of(s["block"]["body"] or [], case, fid) if s.get("block") else []
+            nodes.append(('call', b"mx%d" % m["fid"], [arg_expr(a, fid) for a in s["args"]], [], blk))
+        elif op == "block":
+            nodes.append(('mixinblock',))
+        elif op == "each":
+            ov = s["over"]
+            over = ('arr', [arg_expr(a, fid) for a in ov["lit"]]) if "lit" in ov else vexpr(ov["h"], fid)
+            key = vname(s["key"], fid) if s.get("key") is not None else None
+            nodes.append(('each', vname(s["e"], fid), key, over, nodes_of(s["body"], case, fid)))
+        else:
+            raise ValueError(op)
+    return nodes
 
 
 def template(case):
     """pug nodes and page data of a case"""
     nodes, data = [], {}
+    for m in case.get("mixins", []):
+        nodes.append(('mixin', b"mx%d" % m["fid"], [vname(["L", k], m["fid"]) for k in range(m["np"])],
+                      nodes_of(m["body"], case, m["fid"])))
+    held = {}
     for v, i in case["inits"]:
         if i["k"] == "arr":
-            if i["src"] == "data":
+            if i.get("at"):                      # an array inside an object / array of the page data
+                hv, kind, j = i["at"]
+                held.setdefault((hv, kind), {})[j] = [lit_data(x) for x in i["xs"]]
+            elif i["src"] == "data":
                 data[vname(v)] = [lit_data(x) for x in i["xs"]]
             else:
-                nodes.append(('code', [('vars', [('var', vname(v), ('arr', [lit_expr(x) for x in i["xs"]]))])], False, False))
+                nodes.append(_var(vname(v), ('arr', [lit_expr(x) for x in i["xs"]])))
         elif i["k"] == "nat":
-            nodes.append(('code', [('vars', [('var', vname(v), lit_expr(i["v"]))])], False, False))
+            nodes.append(_var(vname(v), lit_expr(i["v"])))
         else:
             data[vname(v)] = lit_data(i["v"])
-    bar = ('text', b"|")
-    for s in case["body"]:
-        if s["op"] == "call":
-            e = call_expr(s)
-            if s["mode"] == "bind":
-                nodes.append(('code', [('vars', [('var', vname(s["r"]), e)])], False, False))
-            elif s["mode"] == "print":
-                nodes += [('code', [('expr', e)], True, False), bar]
-            else:
-                nodes += [('code', [('expr', e)], False, False), bar]
-        elif s["op"] == "alias":
-            nodes.append(('code', [('vars', [('var', vname(s["x"]), ('id', vname(s["y"])))])], False, False))
+    for (hv, kind), mem in held.items():
+        if kind == "obj":
+            data[vname(hv)] = {b"k%d" % j: mem[j] for j in sorted(mem)}
         else:
-            nodes += [('code', [('expr', ('id', vname(s["x"])))], True, False), bar]
-    return nodes, data
+            data[vname(hv)] = [mem.get(j, []) for j in range(max(mem) + 1)]
+    return nodes + nodes_of(case["body"], case), data
+
+
+# ------------------------------------------------------------------ the flat program of a case
+def ref_ints(V):
+    if isinstance(V, int):
+        return [V]
+    if V[0] == "L":
+        return []
+    return ref_ints(V[1]) + ref_ints(V[4])
+
+
+def stmt_refs(s):
+    """every reference written in statement s itself (not in the statements it contains)"""
+    op = s["op"]
+    out = []
+    args = []
+    if op == "call":
+        out.append(s["recv"])
+        if "r" in s:
+            out.append(s["r"])
+        args = s["args"]
+    elif op == "alias":
+        out += [s["x"], s["y"]]
+        if s.get("wrap"):
+            out.append(s["wrap"][1])
+    elif op == "printvar":
+        out.append(s["x"])
+    elif op == "hold":
+        out += [s["h"]] + s["mem"]
+        args = s["src"]
+    elif op == "rehold":
+        out += [s["h"], s["of"]] + s["mem"] + s["old"]
+    elif op == "pop":
+        out += [s["x"], s["h"], s["y"]]
+    elif op == "mixin":
+        args = s["args"]
+    elif op == "each":
+        out.append(s["e"])
+        if s.get("key") is not None:
+            out.append(s["key"])
+        if "lit" in s["over"]:
+            args = s["over"]["lit"]
+        else:
+            out += [s["over"]["h"]] + s["over"]["mem"]
+    for a in args:
+        if "var" in a:
+            out.append(a["var"])
+            if a.get("wrap"):
+                out.append(a["wrap"][1])
+    return out
+
+
+def sub_bodies(s):
+    if s["op"] == "each":
+        return [s["body"]]
+    if s["op"] == "mixin" and s.get("block") and s["block"].get("body"):
+        return [s["block"]["body"]]
+    return []
+
+
+def all_bodies(case):
+    """every statement list of a case (main, mixin definitions, loop bodies, block contents)"""
+    out, todo = [], [case["body"]] + [m["body"] for m in case.get("mixins", [])]
+    while todo:
+        b = todo.pop()
+        out.append(b)
+        for s in b:
+            todo += sub_bodies(s)
+    return out
+
+
+def case_top(case):
+    top = max([v for v, _ in case["inits"]] + [i["at"][0] for _, i in case["inits"] if i.get("at")] + [-1])
+    for b in all_bodies(case):
+        for s in b:
+            for V in stmt_refs(s):
+                top = max([top] + ref_ints(V))
+    return top + 1
+
+
+class Flat:
+    """erases the routes: yields the flat statements (call / alias / pass / printvar over flat variables) in the
+    order JavaScript executes them.  Parameters and locals of a mixin get fresh flat variables per call."""
+
+    def __init__(self, mixins, alloc, hook=None):
+        self.mixins, self.alloc, self.hook = mixins, alloc, hook
+
+    def res(self, V, fr):
+        if isinstance(V, int):
+            return V
+        if V[0] == "L":
+            loc = fr["loc"]
+            if V[1] not in loc:
+                loc[V[1]] = self.alloc()
+            return loc[V[1]]
+        return self.res(V[4], fr)
+
+    def arg(self, a, fr):
+        return {"lit": a["lit"]} if "lit" in a else {"var": self.res(a["var"], fr)}
+
+    def stmts(self, body, fr):
+        res, arg = self.res, self.arg
+        for s in body:
+            op = s["op"]
+            if op == "call":
+                st = {"op": "call", "recv": res(s["recv"], fr), "f": s["f"], "args": [arg(a, fr) for a in s["args"]],
+                      "mode": s["mode"]}
+                if "r" in s:
+                    st["r"] = res(s["r"], fr)
+                yield st
+            elif op == "alias":
+                if is_plain(s["y"]) and not s.get("wrap"):
+                    yield {"op": "alias", "x": res(s["x"], fr), "y": res(s["y"], fr)}
+                else:
+                    yield {"op": "pass", "x": res(s["x"], fr), "a": {"var": res(s["y"], fr)}}
+            elif op == "printvar":
+                yield {"op": "printvar", "x": res(s["x"], fr)}
+            elif op == "hold":
+                for Vm, a in zip(s["mem"], s["src"]):
+                    yield {"op": "pass", "x": res(Vm, fr), "a": arg(a, fr)}
+            elif op == "rehold":
+                for i, Vm in enumerate(s["mem"]):
+                    yield {"op": "pass", "x": res(Vm, fr), "a": {"var": res(s["old"][s["from"] + i], fr)}}
+            elif op == "pop":
+                yield {"op": "pass", "x": res(s["x"], fr), "a": {"var": res(s["y"], fr)}}
+            elif op == "mixin":
+                m = self.mixins[s["m"]]
+                vals = [arg(a, fr) for a in s["args"]]            # evaluated in the caller's frame
+                fr2 = {"loc": {}, "blk": (s.get("block"), fr)}
+                for k in range(m["np"]):
+                    fr2["loc"][k] = self.alloc()
+                for k in range(min(m["np"], len(vals))):
+                    yield {"op": "pass", "x": fr2["loc"][k], "a": vals[k]}
+                yield from self.stmts(m["body"], fr2)
+            elif op == "block":
+                blk, cfr = fr.get("blk") or (None, None)
+                if blk:
+                    if blk.get("body") is None:
+                        if self.hook:
+                            self.hook(blk, cfr)      # generation: the content is written where it first runs
+                    else:
+                        yield from self.stmts(blk["body"], cfr)
+            elif op == "each":
+                ov = s["over"]
+                for a in (ov["lit"] if "lit" in ov else [{"var": V} for V in ov["mem"]]):
+                    yield {"op": "pass", "x": res(s["e"], fr), "a": arg(a, fr)}
+                    yield from self.stmts(s["body"], fr)
+            else:
+                raise ValueError(op)
+
+
+def flatten(case):
+    nxt = [case_top(case)]
+
+    def alloc():
+        nxt[0] += 1
+        return nxt[0] - 1
+    return list(Flat(case.get("mixins", []), alloc).stmts(case["body"], {"loc": {}, "blk": None}))
 
 
 def stmt_coq(s):
@@ -244,6 +502,8 @@ def stmt_coq(s):
         return b"(SCall " + md + b" %d " % s["recv"] + CQ_METH[s["f"]] + b" " + cq_list([arg_coq(a) for a in s["args"]]) + b")"
     if s["op"] == "alias":
         return b"(SAlias %d %d)" % (s["x"], s["y"])
+    if s["op"] == "pass":
+        return b"(SPass %d " % s["x"] + arg_coq(s["a"]) + b")"
     return b"(SPrintVar %d)" % s["x"]
 
 
@@ -257,7 +517,7 @@ def init_coq(v, i):
     return b"(%d, " % v + t + b")"
 
 
-# ------------------------------------------------------------------ generation (guided by a plain JS simulation)
+# ------------------------------------------------------------------ a plain simulation of JavaScript (guides generation)
 def L(x):
     """python value -> lit json"""
     if x is None:
@@ -279,37 +539,122 @@ def unL(l):
     return l["b"]
 
 
-class Sim:
-    """what JavaScript would hold: enough to pick in-range arguments"""
-
-    def __init__(self):
-        self.env = {}     # var -> python scalar | ('arr', loc) ; None = null/undefined
-        self.heap = []
-        self.next = 0
-
-    def fresh(self):
-        self.next += 1
-        return self.next - 1
-
-    def arrays(self):
-        return [v for v, x in self.env.items() if isinstance(x, tuple)]
-
-    def strings(self):
-        return [v for v, x in self.env.items() if isinstance(x, str)]
-
-    def nums(self, lo, hi):
-        return [v for v, x in self.env.items() if isinstance(x, int) and not isinstance(x, bool) and lo <= x <= hi]
-
-    def scalars(self):
-        return [v for v, x in self.env.items() if not isinstance(x, tuple)]
-
-
 def js_str(x):
     if x is None:
         return ""
     if isinstance(x, bool):
         return "true" if x else "false"
     return str(x)
+
+
+def is_num(x):
+    return isinstance(x, int) and not isinstance(x, bool)
+
+
+def is_arr(x):
+    return isinstance(x, tuple)
+
+
+class OutOfRange(Exception):
+    """the statement is outside the range the property speaks about (or the simulation cannot follow it)"""
+
+
+class Sim:
+    """what JavaScript would hold: enough to pick in-range arguments"""
+
+    def __init__(self):
+        self.env = {}     # flat variable -> python scalar | ('arr', loc) ; None = null/undefined
+        self.heap = []
+
+    def step(self, st):
+        """executes one flat statement; returns the value of a call"""
+        env, heap = self.env, self.heap
+        op = st["op"]
+        if op == "alias":
+            if st["y"] not in env:
+                raise OutOfRange
+            env[st["x"]] = env[st["y"]]
+            return None
+        if op == "pass":
+            a = st["a"]
+            if "lit" not in a and a["var"] not in env:
+                raise OutOfRange
+            env[st["x"]] = unL(a["lit"]) if "lit" in a else env[a["var"]]
+            return None
+        if op == "printvar":
+            if st["x"] not in env or is_arr(env[st["x"]]):
+                raise OutOfRange
+            return None
+        vals = []
+        for a in st["args"]:
+            if "lit" not in a and a["var"] not in env:
+                raise OutOfRange
+            vals.append(unL(a["lit"]) if "lit" in a else env[a["var"]])
+        if st["recv"] not in env:
+            raise OutOfRange
+        recv, f = env[st["recv"]], st["f"]
+        res = None
+        if is_arr(recv):
+            items = heap[recv[1]]
+            if f in ("push", "unshift", "indexOf") and any(is_arr(x) for x in vals):
+                raise OutOfRange
+            if f == "push" and len(vals) == 1:
+                items.append(vals[0])
+                res = len(items)
+            elif f == "pop" and not vals:
+                res = items.pop() if items else None
+            elif f == "shift" and not vals:
+                res = items.pop(0) if items else None
+            elif f == "unshift":
+                items[0:0] = vals
+                res = len(items)
+            elif f == "sort" and not vals:
+                # nulls sort as "null"; undefined cannot be told from null here, the judge knows
+                items.sort(key=lambda x: "null" if x is None else js_str(x))
+                res = recv
+            elif f in ("splice", "slice") and len(vals) == 1 and is_num(vals[0]) and 0 <= vals[0] <= len(items):
+                heap.append(items[vals[0]:])
+                res = ('arr', len(heap) - 1)
+                if f == "splice":
+                    del items[vals[0]:]
+            elif f == "indexOf" and len(vals) == 1:
+                x = vals[0]
+                res = next((i for i, e in enumerate(items) if type(e) == type(x) and e == x), -1)
+            elif f == "join" and len(vals) == 1 and isinstance(vals[0], str):
+                res = vals[0].join(js_str(e) for e in items)
+            elif f == "length" and not vals:
+                res = len(items)
+            else:
+                raise OutOfRange
+        elif isinstance(recv, str):
+            s = recv
+            if f == "length" and not vals:
+                res = len(s)
+            elif f == "charAt" and len(vals) == 1 and is_num(vals[0]) and vals[0] >= 0:
+                res = s[vals[0]:vals[0] + 1]
+            elif f == "indexOf" and len(vals) == 1 and isinstance(vals[0], str):
+                res = s.find(vals[0])
+            elif f == "slice" and len(vals) == 1 and is_num(vals[0]) and vals[0] >= -len(s):
+                d = vals[0]
+                res = "" if d > len(s) else s[d:] if d != 0 else s
+            elif f == "split" and len(vals) == 1 and isinstance(vals[0], str):
+                heap.append(list(s) if vals[0] == "" else s.split(vals[0]))
+                res = ('arr', len(heap) - 1)
+            elif f == "toUpperCase" and not vals:
+                res = s.upper()
+            elif f == "toLowerCase" and not vals:
+                res = s.lower()
+            else:
+                raise OutOfRange
+        else:
+            raise OutOfRange
+        if st["mode"] == "bind":
+            env[st["r"]] = None if f in UNIT else res      # the value of push / sort is the listed deviation
+        elif is_arr(res) and f not in UNIT:
+            raise OutOfRange                               # printing an array
+        elif st["mode"] == "discard" and f not in UNIT:
+            raise OutOfRange
+        return res
 
 
 def rand_elem(rng, nulls=True):
@@ -323,21 +668,158 @@ def rand_elem(rng, nulls=True):
     return None
 
 
-def gen_case(rng, maxops, hostile, stringy=False):
-    """stringy: a history mostly of String method calls on edge_string receivers (their results - pieces of split,
-    slices, characters, case-mapped copies - become receivers and array elements in turn)"""
-    sim = Sim()
-    inits, body = [], []
-    stats = {"args": {"lit": 0, "native": 0, "boxed": 0}, "str": {}}
-    native = set()
+# ------------------------------------------------------------------ generation
+class Frame:
+    """a lexical frame of the generator: the main template or one mixin definition"""
 
-    def add_init(i, val):
-        v = sim.fresh()
-        inits.append([v, i])
-        sim.env[v] = val
+    def __init__(self, kind, fid, fr):
+        self.kind, self.fid, self.fr = kind, fid, fr
+        fr["LF"] = self
+        self.vis = {}        # flat variable -> reference by which this frame can name it
+        self.holders = []    # objects / arrays of arrays whose members are in vis
+        self.nloc = 0
+        self.depth = 0       # > 0 inside a loop body or block content: names bound there end with it
+
+
+class G:
+    """generator of one case, guided by the simulation: every statement is executed as it is written"""
+
+    def __init__(self, rng, maxops, hostile, stringy, routes):
+        self.rng, self.maxops, self.hostile, self.stringy, self.routes = rng, maxops, hostile, stringy, routes
+        self.sim = Sim()
+        self.next = 0
+        self.nfid = 0
+        self.inits, self.body, self.mixins = [], [], []
+        self.native = set()
+        self.globals_ok = set()     # page data still bound as rendered: a mixin body may name it
+        self.pinned = set()         # page data a mixin body names: never re-bound / popped afterwards
+        self.stats = {"args": {"lit": 0, "native": 0, "boxed": 0}, "str": {}, "routes": {}}
+        self.flat = Flat(self.mixins, self.alloc, self.block_hook)
+        self.main = Frame("main", None, {"loc": {}, "blk": None})
+
+    # ---- bookkeeping
+    def alloc(self):
+        self.next += 1
+        return self.next - 1
+
+    def new_fid(self):
+        self.nfid += 1
+        return self.nfid - 1
+
+    def count(self, k):
+        self.stats["routes"][k] = self.stats["routes"].get(k, 0) + 1
+
+    def new_var(self, LF):
+        flat = self.alloc()
+        if LF.kind == "main":
+            return flat, flat
+        k = LF.nloc
+        LF.nloc += 1
+        LF.fr["loc"][k] = flat
+        return flat, ["L", k]
+
+    def binder(self, LF, p_fresh):
+        """the variable a statement binds: a new name, or (main template, outside loops and blocks) an old one"""
+        if LF.kind == "main" and LF.depth == 0 and self.rng.random() >= p_fresh:
+            c = [v for v, V in LF.vis.items() if isinstance(V, int) and v not in self.pinned]
+            if c:
+                v = self.rng.choice(c)
+                self.globals_ok.discard(v)
+                return v, v
+        return self.new_var(LF)
+
+    @staticmethod
+    def is_page_data(V):
+        """inside a mixin: a name of the main template's page data (the variable itself or a member of it)"""
+        return isinstance(V, int) or V[0] == "M" and isinstance(V[1], int)
+
+    def use(self, LF, v):
+        """the reference by which frame LF writes variable v at this place"""
+        V = LF.vis[v]
+        if LF.kind == "mixin" and self.is_page_data(V):
+            self.pinned.add(v)                 # page data named from inside a mixin
+            self.count("page_data_in_mixin")
+        if not isinstance(V, int) and V[0] == "M":
+            V = ["M", V[1], V[2], self.rng.choice(["dot", "key"]) if V[3] == "obj" else "idx", V[4]]
+            self.count("member_of_object" if V[3] != "idx" else "element_of_array")
+        return V
+
+    def snapshot(self, LF):
+        return (copy.deepcopy((self.sim.env, self.sim.heap)), self.next, self.nfid, set(self.native), len(self.mixins),
+                dict(LF.vis), LF.nloc, dict(LF.fr["loc"]), LF.depth, copy.deepcopy(LF.holders), copy.deepcopy(self.stats),
+                set(self.globals_ok), set(self.pinned), LF)
+
+    def restore(self, snap):
+        (self.sim.env, self.sim.heap), self.next, self.nfid, self.native, nm, vis, nloc, loc, depth, holders, self.stats, \
+            self.globals_ok, self.pinned, LF = snap
+        del self.mixins[nm:]
+        LF.vis, LF.nloc, LF.depth, LF.holders = vis, nloc, depth, holders
+        LF.fr["loc"].clear()
+        LF.fr["loc"].update(loc)
+
+    def run(self, stmts, LF):
+        for fs in self.flat.stmts(stmts, LF.fr):
+            self.exec_flat(fs)
+
+    def exec_flat(self, fs):
+        r = self.sim.step(fs)
+        if fs["op"] == "alias":
+            self.native.discard(fs["x"])
+            if fs["y"] in self.native:
+                self.native.add(fs["x"])
+        elif fs["op"] == "pass":
+            self.native.discard(fs["x"])
+        elif fs["op"] == "call" and fs["mode"] == "bind":
+            self.native.discard(fs["r"])
+        return r
+
+    def emit(self, LF, body, st):
+        body.append(st)
+        self.run([st], LF)
+
+    def arrays(self, LF):
+        return [v for v in LF.vis if is_arr(self.sim.env.get(v))]
+
+    def strings(self, LF):
+        return [v for v in LF.vis if isinstance(self.sim.env.get(v), str)]
+
+    def observe(self, LF, body):
+        arrs = sorted(self.arrays(LF))
+        if LF.kind == "mixin":        # page data is read from inside a mixin now and then, not after every call
+            arrs = [v for v in arrs if not self.is_page_data(LF.vis[v]) or self.rng.random() < 0.25]
+        if len(arrs) > 7:
+            arrs = sorted(self.rng.sample(arrs, 7))
+        for v in arrs:
+            self.emit(LF, body, {"op": "call", "mode": "print", "recv": self.use(LF, v), "f": "join", "args": [{"lit": L(",")}]})
+            self.emit(LF, body, {"op": "call", "mode": "print", "recv": self.use(LF, v), "f": "length", "args": []})
+
+    def arg_of(self, LF, val_ok, make_lit, pvar=0.45):
+        """an argument whose JS value satisfies val_ok: a variable (native or boxed) or a literal"""
+        env = self.sim.env
+        if self.rng.random() < pvar:
+            c = [v for v in LF.vis if v in env and not is_arr(env[v]) and val_ok(env[v])]
+            if c:
+                v = self.rng.choice(c)
+                self.stats["args"]["native" if v in self.native else "boxed"] += 1
+                return {"var": self.use(LF, v)}, env[v]
+        self.stats["args"]["lit"] += 1
+        x = make_lit()
+        return {"lit": L(x)}, x
+
+    # ---- initial bindings
+    def add_init(self, i, val, native=False):
+        v = self.alloc()
+        self.inits.append([v, i])
+        self.sim.env[v] = val
+        self.main.vis[v] = v
+        if native:
+            self.native.add(v)
+        elif i.get("src") != "lit":
+            self.globals_ok.add(v)
         return v
 
-    for _ in range(rng.choice([0, 1, 1]) if stringy else rng.choice([1, 1, 2, 2, 3])):
+    def rand_items(self):
+        rng = self.rng
         n = rng.choice([0, 1, 2, 3, 3, 4, 5, 6, 8, 13, 16]) if rng.random() < 0.9 else rng.randint(0, 20)
         distinct = n > 12 and rng.random() < 0.7
         xs = []
@@ -346,145 +828,128 @@ def gen_case(rng, maxops, hostile, stringy=False):
             if distinct:
                 e = k * 3 + 1 if rng.random() < 0.5 else "w%02d" % k
             xs.append(e)
-        sim.heap.append(list(xs))
-        src = rng.choice(["lit", "data"])
         ls = [L(x) for x in xs]
-        if src == "data":     # Go ints and integer-valued float64s both convert to Number
-            ls = [dict(l, f=True) if l is not None and "n" in l and rng.random() < 0.3 else l for l in ls]
-        add_init({"k": "arr", "src": src, "xs": ls}, ('arr', len(sim.heap) - 1))
-    for _ in range(rng.choice([0, 1, 2, 3])):
-        x = rng.choice([0, 1, 2, 3, 4, ",", "a", "b", "-", True, 7, "1"])
-        native.add(add_init({"k": "nat", "v": L(x)}, x))
-    for _ in range(rng.choice([0, 1, 2])):
-        x = rng.choice([0, 1, 2, 3, "a", ",", "1", None, False, 10, "abc"])
-        add_init({"k": "box", "v": L(x)}, x)
-    for _ in range(rng.choice([0, 1, 2]) if stringy else 0):      # separators / needles held in variables
-        x = rng.choice([" ", " ", ",", "a", "aa", "", "\t", ".", "  "])
-        if rng.random() < 0.5:
-            native.add(add_init({"k": "nat", "v": L(x)}, x))
-        else:
-            add_init({"k": "box", "v": L(x)}, x)
-    for _ in range(rng.choice([2, 3, 3, 4]) if stringy else rng.choice([0, 1, 1, 2])):
-        if rng.random() < (0.8 if stringy else 0.4):
-            s = edge_string(rng)
-        else:
-            s = rng.choice(WORDS + ["Hello, World", "one two  three", "aXbXXc", "MiXeD Case 123", " padded ", "tab\there",
-                                    "two\nlines", "a.b.c", "x+y", "aaa", "[0]"])
-        if rng.random() < 0.5:
-            native.add(add_init({"k": "nat", "v": L(s)}, s))
-        else:
-            add_init({"k": "box", "v": L(s)}, s)
+        return xs, ls
 
-    def arg_of(val_ok, make_lit, pvar=0.45):
-        """an argument whose JS value satisfies val_ok: a variable (native or boxed) or a literal"""
-        if rng.random() < pvar:
-            c = [v for v in sim.scalars() if val_ok(sim.env[v])]
-            if c:
-                v = rng.choice(c)
-                stats["args"]["native" if v in native else "boxed"] += 1
-                return {"var": v}, sim.env[v]
-        stats["args"]["lit"] += 1
-        x = make_lit()
-        return {"lit": L(x)}, x
+    def data_floats(self, ls):
+        # Go ints and integer-valued float64s both convert to Number
+        return [dict(l, f=True) if l is not None and "n" in l and self.rng.random() < 0.3 else l for l in ls]
 
-    def is_num(x):
-        return isinstance(x, int) and not isinstance(x, bool)
+    def gen_inits(self):
+        rng, sim, stringy = self.rng, self.sim, self.stringy
+        for _ in range(rng.choice([0, 1, 1]) if stringy else rng.choice([1, 1, 2, 2, 3])):
+            xs, ls = self.rand_items()
+            sim.heap.append(list(xs))
+            src = rng.choice(["lit", "data"])
+            if src == "data":
+                ls = self.data_floats(ls)
+            self.add_init({"k": "arr", "src": src, "xs": ls}, ('arr', len(sim.heap) - 1))
+        if self.routes and rng.random() < 0.35:
+            # arrays that arrive inside an object / an array of the page data: h.k0, h["k1"] / h[0], h[1]
+            kind = rng.choice(["obj", "arr"])
+            hv = self.alloc()
+            mem = []
+            for j in range(rng.choice([1, 2, 2, 3])):
+                xs, ls = self.rand_items()
+                sim.heap.append(list(xs))
+                v = self.alloc()
+                self.inits.append([v, {"k": "arr", "src": "data", "xs": self.data_floats(ls), "at": [hv, kind, j]}])
+                sim.env[v] = ('arr', len(sim.heap) - 1)
+                self.main.vis[v] = ["M", hv, j, kind, v]
+                self.globals_ok.add(v)
+                mem.append([v, v])
+            self.main.holders.append({"h": hv, "kind": kind, "mem": mem, "len": len(mem), "allarr": True, "data": True})
+            self.count("page_data_holder")
+        for _ in range(rng.choice([0, 1, 2, 3])):
+            x = rng.choice([0, 1, 2, 3, 4, ",", "a", "b", "-", True, 7, "1"])
+            self.add_init({"k": "nat", "v": L(x)}, x, native=True)
+        for _ in range(rng.choice([0, 1, 2])):
+            x = rng.choice([0, 1, 2, 3, "a", ",", "1", None, False, 10, "abc"])
+            self.add_init({"k": "box", "v": L(x)}, x)
+        for _ in range(rng.choice([0, 1, 2]) if stringy else 0):      # separators / needles held in variables
+            x = rng.choice([" ", " ", ",", "a", "aa", "", "\t", ".", "  "])
+            if rng.random() < 0.5:
+                self.add_init({"k": "nat", "v": L(x)}, x, native=True)
+            else:
+                self.add_init({"k": "box", "v": L(x)}, x)
+        for _ in range(rng.choice([2, 3, 3, 4]) if stringy else rng.choice([0, 1, 1, 2])):
+            if rng.random() < (0.8 if stringy else 0.4):
+                s = edge_string(rng)
+            else:
+                s = rng.choice(WORDS + ["Hello, World", "one two  three", "aXbXXc", "MiXeD Case 123", " padded ", "tab\there",
+                                        "two\nlines", "a.b.c", "x+y", "aaa", "[0]"])
+            if rng.random() < 0.5:
+                self.add_init({"k": "nat", "v": L(s)}, s, native=True)
+            else:
+                self.add_init({"k": "box", "v": L(s)}, s)
 
-    def observe():
-        for v in sorted(sim.arrays())[:7]:
-            body.append({"op": "call", "mode": "print", "recv": v, "f": "join", "args": [{"lit": L(",")}]})
-            body.append({"op": "call", "mode": "print", "recv": v, "f": "length", "args": []})
-
-    observe()
-    nops = rng.randint(1, maxops)
-    hostile_at = rng.randrange(nops) if hostile else -1
-    for opi in range(nops):
-        arrs, strs = sim.arrays(), sim.strings()
-        if rng.random() < 0.06 and sim.env:
-            y = rng.choice(list(sim.env))
-            x = sim.fresh() if rng.random() < 0.8 else rng.choice(list(sim.env))
-            body.append({"op": "alias", "x": x, "y": y})
-            sim.env[x] = sim.env[y]
-            native.discard(x)
-            if y in native:
-                native.add(x)
-            continue
-        use_str = strs and (not arrs or rng.random() < (0.6 if stringy else 0.22))
+    # ---- one method call (or a plain assignment)
+    def gen_op(self, LF, body, hostile_now=False, focus=None):
+        """appends one call statement to body; False: nothing left to call"""
+        rng, sim, stringy = self.rng, self.sim, self.stringy
+        env = sim.env
+        arrs, strs = self.arrays(LF), self.strings(LF)
+        if rng.random() < 0.06 and LF.vis and not hostile_now:
+            y = rng.choice([v for v in LF.vis if v in env] or [None])
+            if y is not None:
+                x, xV = self.binder(LF, 0.8)
+                self.emit(LF, body, {"op": "alias", "x": xV, "y": self.use(LF, y)})
+                LF.vis[x] = xV
+                self.count("assignment")
+                return True
+        use_str = strs and (not arrs or rng.random() < (0.6 if stringy else 0.22)) and not (focus in arrs and rng.random() < 0.8)
         if not use_str and not arrs:
-            break
+            return False
         recv = rng.choice(strs if use_str else arrs)
-        args, res, newarr = [], None, None
+        if not use_str and focus in arrs and rng.random() < 0.7:
+            recv = focus
+        args, newarr = [], False
         if use_str:
-            s = sim.env[recv]
+            s = env[recv]
             f = rng.choice(STR_METHODS)
             f = rng.choice(STR_METHODS + ["split", "split"]) if stringy else f
             d = None
             if f in ("toUpperCase", "toLowerCase") and rng.random() < 0.5:   # the neighbours of the letter ranges
-                c = [v for v in strs if any(ch in "@[`{" for ch in sim.env[v])]
+                c = [v for v in strs if any(ch in "@[`{" for ch in env[v])]
                 if c:
                     recv = rng.choice(c)
-                    s = sim.env[recv]
+                    s = env[recv]
             if f == "split" and rng.random() < 0.5:     # the receivers on which look-alike splitters differ
-                c = [v for v in strs if str_class("split", sim.env[v], " ")[:1] == [BLANK_CLASS] or self_overlaps(sim.env[v])]
+                c = [v for v in strs if str_class("split", env[v], " ")[:1] == [BLANK_CLASS] or self_overlaps(env[v])]
                 if c:
                     recv = rng.choice(c)
-                    s = sim.env[recv]
-            if f == "length":
-                res = len(s)
-            elif f == "charAt":
-                a, d = arg_of(lambda x: is_num(x) and 0 <= x, lambda: str_index(rng, len(s), 0))
-                args, res = [a], s[d:d + 1]
-            elif f == "indexOf":
-                a, d = arg_of(lambda x: isinstance(x, str) and len(x) <= 3, lambda: index_needle(rng, s), 0.3)
-                args, res = [a], s.find(d)
-            elif f == "slice":
-                a, d = arg_of(lambda x: is_num(x) and -len(s) <= x, lambda: str_index(rng, len(s), -len(s)))
-                args, res = [a], s[d:] if d != 0 else s
-                if d > len(s):
-                    res = ""
-            elif f == "split":
-                a, d = arg_of(lambda x: isinstance(x, str) and len(x) <= 2, lambda: split_sep(rng, s), 0.3)
+                    s = env[recv]
+            if f == "charAt":
+                a, d = self.arg_of(LF, lambda x: is_num(x) and 0 <= x, lambda: str_index(rng, len(s), 0))
                 args = [a]
-                newarr = list(s) if d == "" else s.split(d)
-            elif f == "toUpperCase":
-                res = s.upper()
-            else:
-                res = s.lower()
+            elif f == "indexOf":
+                a, d = self.arg_of(LF, lambda x: isinstance(x, str) and len(x) <= 3, lambda: index_needle(rng, s), 0.3)
+                args = [a]
+            elif f == "slice":
+                a, d = self.arg_of(LF, lambda x: is_num(x) and -len(s) <= x, lambda: str_index(rng, len(s), -len(s)))
+                args = [a]
+            elif f == "split":
+                a, d = self.arg_of(LF, lambda x: isinstance(x, str) and len(x) <= 2, lambda: split_sep(rng, s), 0.3)
+                args = [a]
+                newarr = True
             for k in str_class(f, s, d):
-                stats["str"][k] = stats["str"].get(k, 0) + 1
+                self.stats["str"][k] = self.stats["str"].get(k, 0) + 1
         else:
-            loc = sim.env[recv][1]
-            items = sim.heap[loc]
+            items = sim.heap[env[recv][1]]
             many = len(arrs) >= 6
             f = rng.choice(["push"] * 3 + ["pop", "shift", "unshift", "sort"] * 2 + ["indexOf"] * 2 + ["join", "length"] +
                            ([] if many else ["splice", "slice"] * 2))
             if f == "push":
-                a, x = arg_of(lambda x: True, lambda: rand_elem(rng, nulls=False))
+                a, x = self.arg_of(LF, lambda x: True, lambda: rand_elem(rng, nulls=False))
                 args = [a]
-                items.append(x)
-                res = len(items)
-            elif f == "pop":
-                res = items.pop() if items else None
-            elif f == "shift":
-                res = items.pop(0) if items else None
             elif f == "unshift":
-                xs = []
                 for _ in range(rng.choice([0, 1, 1, 1, 2, 3])):
-                    a, x = arg_of(lambda x: True, lambda: rand_elem(rng, nulls=False))
+                    a, x = self.arg_of(LF, lambda x: True, lambda: rand_elem(rng, nulls=False))
                     args.append(a)
-                    xs.append(x)
-                items[0:0] = xs
-                res = len(items)
-            elif f == "sort":
-                # nulls sort as "null"; undefined cannot be told from null here, the judge knows
-                items.sort(key=lambda x: "null" if x is None else js_str(x))
-                res = None
             elif f in ("splice", "slice"):
-                a, n = arg_of(lambda x: is_num(x) and 0 <= x <= len(items), lambda: rng.randint(0, len(items)))
+                a, n = self.arg_of(LF, lambda x: is_num(x) and 0 <= x <= len(items), lambda: rng.randint(0, len(items)))
                 args = [a]
-                newarr = items[n:]
-                if f == "splice":
-                    del items[n:]
+                newarr = True
             elif f == "indexOf":
                 def needle():
                     if items and rng.random() < 0.7:
@@ -492,21 +957,18 @@ def gen_case(rng, maxops, hostile, stringy=False):
                         if e is not None:
                             return e
                     return rand_elem(rng, nulls=False)
-                a, x = arg_of(lambda x: True, needle)
+                a, x = self.arg_of(LF, lambda x: True, needle)
                 args = [a]
-                res = next((i for i, e in enumerate(items) if type(e) == type(x) and e == x), -1)
             elif f == "join":
-                a, d = arg_of(lambda x: isinstance(x, str), lambda: rng.choice(SEPS))
-                args, res = [a], d.join(js_str(e) for e in items)
-            else:
-                res = len(items)
-        st = {"op": "call", "recv": recv, "f": f, "args": args}
-        if opi == hostile_at:
+                a, d = self.arg_of(LF, lambda x: isinstance(x, str), lambda: rng.choice(SEPS))
+                args = [a]
+        st = {"op": "call", "recv": self.use(LF, recv), "f": f, "args": args}
+        if hostile_now:
             h = rng.choice(["range", "type", "arity", "discard", "printarr"])
             if h == "range" and f in ("splice", "slice", "charAt"):
                 n = rng.choice([-1, -2, 99]) if f != "slice" or not use_str else -99
                 if f in ("splice", "slice") and not use_str:
-                    n = rng.choice([-1, len(sim.heap[sim.env[recv][1]]) + 1 + (1 if f == "splice" else 0), 50])
+                    n = rng.choice([-1, len(sim.heap[env[recv][1]]) + 1 + (1 if f == "splice" else 0), 50])
                 st["args"] = [{"lit": L(n)}]
             elif h == "type" and args:
                 st["args"] = [{"lit": L(rng.choice([True, "q", 3]))}]
@@ -514,41 +976,445 @@ def gen_case(rng, maxops, hostile, stringy=False):
                 st["args"] = args + [{"lit": L(1)}] if rng.random() < 0.5 or not args else args[:-1]
             elif h == "discard":
                 st["mode"] = "discard"
-            elif h == "printarr" and newarr is not None:
+            elif h == "printarr" and newarr:
                 st["mode"] = "print"
             st.setdefault("mode", "bind")
-            st.setdefault("r", sim.fresh())
-            body.append(st)
-            break
+            if st["mode"] == "bind":
+                st["r"] = self.new_var(LF)[1]
+            try:
+                self.emit(LF, body, st)
+            except OutOfRange:
+                pass
+            return False
+        bound = None
         if f in UNIT:
             x = rng.random()
             st["mode"] = "discard" if x < 0.85 else "bind" if x < 0.93 else "print"
             if st["mode"] == "bind":
-                st["r"] = sim.fresh()
-                sim.env[st["r"]] = None   # never used as an argument afterwards: its value is the deviation
-                del sim.env[st["r"]]
-            body.append(st)
-        elif newarr is not None:
+                st["r"] = self.new_var(LF)[1]     # never used as an argument afterwards: its value is the deviation
+        elif newarr:
             st["mode"] = "bind"
-            st["r"] = sim.fresh() if rng.random() < 0.9 or not sim.env else rng.choice(list(sim.env))
-            sim.heap.append(newarr)
-            sim.env[st["r"]] = ('arr', len(sim.heap) - 1)
-            native.discard(st["r"])
-            body.append(st)
+            bound = self.binder(LF, 0.9)
         elif rng.random() < 0.3:
             st["mode"] = "print"
-            body.append(st)
         else:
             st["mode"] = "bind"
-            st["r"] = sim.fresh() if rng.random() < 0.92 or not sim.env else rng.choice(list(sim.env))
-            sim.env[st["r"]] = res
-            native.discard(st["r"])
-            body.append(st)
-            if rng.random() < 0.85:
-                body.append({"op": "printvar", "x": st["r"]})
-        if f in MUTATING or newarr is not None:
-            observe()
-    return {"inits": inits, "body": body}, stats
+            bound = self.binder(LF, 0.92)
+        if bound:
+            st["r"] = bound[1]
+        self.emit(LF, body, st)
+        if bound:
+            LF.vis[bound[0]] = bound[1]
+            if not newarr and rng.random() < 0.85:
+                self.emit(LF, body, {"op": "printvar", "x": bound[1]})
+        if f in MUTATING or newarr:
+            self.observe(LF, body)
+        return True
+
+    # ---- routes: second names for an array
+    def arr_arg(self, LF, v=None):
+        """an array of frame LF as an argument / source: the variable, or an expression whose value it is"""
+        rng, env, heap = self.rng, self.sim.env, self.sim.heap
+        arrs = self.arrays(LF)
+        v = rng.choice(arrs) if v is None else v
+        a = {"var": self.use(LF, v)}
+        if rng.random() < 0.2:
+            o = rng.choice(arrs)
+            kinds = ["tern1", "tern0"]
+            if LF.kind == "main" and LF.depth == 0:      # an empty array is false for the code: another property's finding
+                if heap[env[v][1]]:
+                    kinds.append("or")
+                if heap[env[o][1]]:
+                    kinds.append("and")
+            a["wrap"] = [rng.choice(kinds), self.use(LF, o)]
+            self.count("conditional_or_logical_expression")
+        return a, v
+
+    def gen_route(self, LF, body, depth):
+        rng = self.rng
+        if not self.arrays(LF):
+            return False
+        x = rng.random()
+        top = LF.depth == 0
+        hs = [H for H in LF.holders if H["kind"] == "arr" and H["len"] >= 1] if top else []
+        if x < 0.45 and depth < 2:
+            return self.gen_mixin_call(LF, body, depth)
+        if x < 0.62 and depth < 2:
+            return self.gen_each(LF, body, depth)
+        if x < 0.80 and top:
+            return self.gen_hold(LF, body)
+        if x < 0.87 and hs:
+            return self.gen_rehold(LF, body, rng.choice(hs))
+        if x < 0.93 and hs:
+            return self.gen_pop(LF, body, rng.choice(hs))
+        a, v = self.arr_arg(LF)
+        xf, xV = self.new_var(LF)
+        st = {"op": "alias", "x": xV, "y": a["var"]}
+        if a.get("wrap"):
+            st["wrap"] = a["wrap"]
+        self.emit(LF, body, st)
+        LF.vis[xf] = xV
+        self.count("assignment")
+        self.gen_op(LF, body, focus=xf)
+        return True
+
+    def scalar_kind(self, x):
+        return "str" if isinstance(x, str) else "num" if is_num(x) else "any"
+
+    def gen_mixin_call(self, LF, body, depth, must=None):
+        """+mx(args) [with block content]: a mixin written now (its body is generated while this first call runs) or
+        one written earlier called again with other arguments"""
+        rng, sim = self.rng, self.sim
+        done = [i for i, m in enumerate(self.mixins) if m.get("done")]
+        if done and must is None and rng.random() < 0.4:
+            snap = self.snapshot(LF)
+            i = rng.choice(done)
+            m = self.mixins[i]
+            args = []
+            for k in m["kinds"]:
+                if k == "arr":
+                    args.append(self.arr_arg(LF)[0])
+                else:
+                    args.append(self.arg_of(LF, lambda x: k == "any" or self.scalar_kind(x) == k,
+                                            lambda: rng.choice(WORDS) if k == "str" else rng.choice(NUMS) if k == "num"
+                                            else rand_elem(rng, nulls=False))[0])
+            st = {"op": "mixin", "m": i, "args": args}
+            if m["blocks"] and rng.random() < 0.6:
+                st["block"] = {"body": None}
+            try:
+                self.run([st], LF)          # the whole body again, under the new bindings
+                if st.get("block") and st["block"]["body"] is None:
+                    st["block"]["body"] = []
+                body.append(st)
+                self.count("mixin_called_again")
+                self.observe(LF, body)
+                return True
+            except OutOfRange:
+                self.restore(snap)
+        np_ = rng.choice([1, 1, 2, 2, 3])
+        args, kinds, first = [], [], None
+        for k in range(np_):
+            if k == 0 or rng.random() < 0.3:
+                a, v = self.arr_arg(LF, must if k == 0 else None)     # the same array may be passed twice
+                first = v if k == 0 else first
+                kinds.append("arr")
+            else:
+                a, x = self.arg_of(LF, lambda x: True, lambda: rand_elem(rng, nulls=False))
+                kinds.append(self.scalar_kind(x))
+            args.append(a)
+        m = {"fid": self.new_fid(), "np": np_, "body": [], "kinds": kinds, "blocks": 0}
+        self.mixins.append(m)
+        st = {"op": "mixin", "m": len(self.mixins) - 1, "args": args}
+        markers = rng.random() < 0.5
+        if markers and rng.random() < 0.8:
+            st["block"] = {"body": None}
+        fr2 = {"loc": {}, "blk": (st.get("block"), LF.fr)}
+        LF2 = Frame("mixin", m["fid"], fr2)
+        vals = [self.flat.arg(a, LF.fr) for a in args]
+        params = []
+        for k in range(np_):
+            pf, pV = self.new_var(LF2)
+            params.append(pf)
+        for k in range(np_):
+            self.exec_flat({"op": "pass", "x": params[k], "a": vals[k]})
+            LF2.vis[params[k]] = ["L", k]
+        self.count("mixin_parameter")
+        for v in self.globals_ok:             # page data is visible inside a mixin
+            if v in sim.env and v in self.main.vis:
+                LF2.vis[v] = self.main.vis[v]
+        nb = rng.randint(1, 4)
+        at = sorted(rng.randrange(nb + 1) for _ in range(rng.choice([1, 1, 2]))) if markers else []
+        for j in range(nb + 1):
+            for _ in range(at.count(j)):
+                self.place_block(LF2, m)
+            if j < nb:
+                if depth < 1 and rng.random() < 0.15:
+                    self.gen_route(LF2, m["body"], depth + 1)
+                else:
+                    self.gen_op(LF2, m["body"], focus=params[0])
+        if st.get("block") and st["block"]["body"] is None:
+            st["block"]["body"] = []
+        m["done"] = True
+        body.append(st)
+        self.observe(LF, body)
+        return True
+
+    def place_block(self, LF2, m):
+        """`block` in a mixin body: the block content of the call runs here, in the caller's frame"""
+        blk, cfr = LF2.fr["blk"]
+        m["body"].append({"op": "block"})
+        m["blocks"] += 1
+        if not blk:
+            return
+        if blk["body"] is None:
+            self.block_hook(blk, cfr)
+            return
+        snap = self.snapshot(cfr["LF"])
+        snap2 = self.snapshot(LF2)
+        try:
+            self.run(blk["body"], cfr["LF"])          # placed a second time: the content runs again
+            self.count("block_placed_twice")
+        except OutOfRange:
+            self.restore(snap)
+            self.restore(snap2)
+            m["body"].pop()
+            m["blocks"] -= 1
+
+    def block_hook(self, blk, cfr):
+        """writes the block content of a call at the moment the mixin first places it: statements of the CALLER's
+        frame (they read and change the caller's variables between the mixin's own statements)"""
+        LF = cfr["LF"]
+        blk["body"] = []
+        saved = set(LF.vis)
+        LF.depth += 1
+        for _ in range(self.rng.randint(1, 3)):
+            if not self.gen_op(LF, blk["body"]):
+                break
+        if self.rng.random() < 0.5:
+            self.observe(LF, blk["body"])
+        LF.depth -= 1
+        for v in list(LF.vis):
+            if v not in saved:
+                del LF.vis[v]
+        self.count("block_content_reads_caller")
+
+    def gen_each(self, LF, body, depth):
+        """each e in [a, b] / each e in h (h an array of arrays): the loop variable is a second name, in turn, of
+        every element"""
+        rng = self.rng
+        arrs = self.arrays(LF)
+        hs = [H for H in LF.holders if H["kind"] == "arr" and H["allarr"] and H["len"] >= 1]
+        snap = self.snapshot(LF)
+        if hs and rng.random() < 0.45:
+            H = rng.choice(hs)
+            over = {"h": H["h"], "mem": [mV for _, mV in H["mem"][:H["len"]]]}
+            mems = [{"var": mV} for mV in over["mem"]]
+            self.count("each_over_array_of_arrays_variable")
+        else:
+            mems = [{"var": self.use(LF, rng.choice(arrs))} for _ in range(rng.choice([1, 2, 2, 3]))]
+            over = {"lit": mems}
+            self.count("each_over_array_literal")
+        ef, eV = self.new_var(LF)
+        st = {"op": "each", "e": eV, "key": self.new_var(LF)[1] if rng.random() < 0.3 else None, "over": over, "body": []}
+        saved = set(LF.vis)
+        LF.depth += 1
+        try:
+            self.exec_flat({"op": "pass", "x": ef, "a": self.flat.arg(mems[0], LF.fr)})
+            LF.vis[ef] = eV
+            for _ in range(rng.randint(1, 3)):
+                if depth < 1 and rng.random() < 0.2:
+                    self.gen_mixin_call(LF, st["body"], depth + 1, must=ef)
+                else:
+                    self.gen_op(LF, st["body"], focus=ef)
+            for a in mems[1:]:
+                self.exec_flat({"op": "pass", "x": ef, "a": self.flat.arg(a, LF.fr)})
+                self.run(st["body"], LF)
+        except OutOfRange:
+            self.restore(snap)
+            return False
+        LF.depth -= 1
+        for v in list(LF.vis):
+            if v not in saved:
+                del LF.vis[v]
+        body.append(st)
+        self.observe(LF, body)
+        return True
+
+    def gen_hold(self, LF, body):
+        """- var h = {k0: a, k1: b} / - var h = [a, b]: h.k0, h["k0"], h[0] are further names of a"""
+        rng = self.rng
+        kind = rng.choice(["obj", "arr"])
+        src, allarr = [], True
+        for j in range(rng.choice([1, 2, 2, 3])):
+            if j == 0 or rng.random() < 0.7:
+                src.append({"var": self.use(LF, rng.choice(self.arrays(LF)))})
+            else:
+                src.append(self.arg_of(LF, lambda x: True, lambda: rand_elem(rng, nulls=False))[0])
+                allarr = False
+        hV = self.new_var(LF)[1]
+        mem = [list(self.new_var(LF)) for _ in src]
+        self.emit(LF, body, {"op": "hold", "h": hV, "kind": kind, "mem": [mV for _, mV in mem], "src": src})
+        for j, (mf, mV) in enumerate(mem):
+            LF.vis[mf] = ["M", hV, j, kind, mV]
+        LF.holders.append({"h": hV, "kind": kind, "mem": mem, "len": len(mem), "allarr": allarr, "data": False})
+        self.count("object_holding_arrays" if kind == "obj" else "array_holding_arrays")
+        self.gen_op(LF, body, focus=mem[0][0])          # a call through the new name
+        return True
+
+    def gen_rehold(self, LF, body, H):
+        """- var g = h.slice(j): the copy holds the same arrays"""
+        frm = self.rng.randrange(H["len"])
+        hV = self.new_var(LF)[1]
+        old = H["mem"][:H["len"]]
+        mem = [list(self.new_var(LF)) for _ in old[frm:]]
+        self.emit(LF, body, {"op": "rehold", "h": hV, "of": H["h"], "from": frm, "mem": [mV for _, mV in mem],
+                             "old": [mV for _, mV in old]})
+        for j, (mf, mV) in enumerate(mem):
+            LF.vis[mf] = ["M", hV, j, "arr", mV]
+        LF.holders.append({"h": hV, "kind": "arr", "mem": mem, "len": len(mem), "allarr": H["allarr"], "data": False})
+        self.count("result_of_slice_on_holder")
+        self.gen_op(LF, body, focus=mem[0][0])
+        return True
+
+    def gen_pop(self, LF, body, H):
+        """- var x = h.pop(): the method hands back the array it held"""
+        mf, mV = H["mem"][H["len"] - 1]
+        if any(f in self.pinned for f, _ in H["mem"]):
+            return False
+        xf, xV = self.new_var(LF)
+        self.emit(LF, body, {"op": "pop", "x": xV, "h": H["h"], "y": mV})
+        H["len"] -= 1
+        LF.vis.pop(mf, None)
+        self.globals_ok.discard(mf)
+        LF.vis[xf] = xV
+        self.count("result_of_pop_on_holder")
+        self.gen_op(LF, body, focus=xf)
+        return True
+
+    # ---- a whole case
+    def gen(self):
+        rng, main, body = self.rng, self.main, self.body
+        self.gen_inits()
+        self.observe(main, body)
+        nops = rng.randint(1, self.maxops)
+        hostile_at = rng.randrange(nops) if self.hostile else -1
+        forced = self.routes
+        for opi in range(nops):
+            if opi != hostile_at and self.routes and (forced or rng.random() < 0.3) and self.arrays(main):
+                snap, nb = self.snapshot(main), len(body)
+                try:
+                    if self.gen_route(main, body, 0):
+                        forced = False
+                except OutOfRange:          # a replayed body left the range: the route is not written
+                    self.restore(snap)
+                    del body[nb:]
+                continue
+            if not self.gen_op(main, body, hostile_now=(opi == hostile_at)):
+                break
+        case = {"inits": self.inits, "body": body}
+        if self.mixins:
+            case["mixins"] = [{"fid": m["fid"], "np": m["np"], "body": m["body"]} for m in self.mixins]
+        return case, self.stats
+
+
+def gen_case(rng, maxops, hostile, stringy=False, routes=False):
+    """stringy: a history mostly of String method calls on edge_string receivers (their results - pieces of split,
+    slices, characters, case-mapped copies - become receivers and array elements in turn);
+    routes: a history in which arrays get second names through mixins, loops, holders and expressions"""
+    return G(rng, maxops, hostile, stringy, routes).gen()
+
+
+RULE = ("one case = one template executed by a real Engine: 1-3 initial arrays (literals or []interface{} page data, "
+        "0-20 elements: integers, ASCII strings, booleans, null), native variables (- var i = 1), boxed page-data "
+        "scalars and strings, then a generated history of <= 30 (thorough <= 120) calls of push pop shift unshift sort "
+        "splice slice indexOf join length / length charAt indexOf slice split toUpperCase toLowerCase, each as "
+        "'- var rN = recv.m(args)', '= recv.m(args)' or '- recv.m(args)', arguments as literals, native and boxed "
+        "variables chosen in range by a plain simulation, results printed and results of splice/slice/split used as "
+        "new receivers, aliases by '- var x = y'; after every call join(',') and length of every live array name "
+        "(at most 7, sampled) are printed. "
+        "35% of the cases are ROUTE histories: they start with, and then hold at every step with probability 0.3, a "
+        "statement that makes a SECOND NAME for an array by a route other than assignment, followed by calls through "
+        "the new name and the print-out of all names: (a) a mixin call +mx(a, ...) - 1-3 parameters, the first an "
+        "array, the others arrays (the same array may be passed twice) or scalars (literals, native and boxed "
+        "variables); the mixin body (1-4 calls, 70% of them through the first parameter, any method, results bound to "
+        "mixin locals, holders and nested mixin calls inside) is generated while its first call runs; 40% of the later "
+        "mixin calls call an EXISTING mixin again with other arguments (the body runs again under the new bindings; the "
+        "call is dropped if that leaves the range); (b) block content: half of the mixins place `block` once or twice "
+        "between their own calls, 80% of their calls carry 1-3 statements of the caller's frame that read and change "
+        "the caller's variables there; (c) page data named from inside a mixin body (variables and members of page "
+        "data objects/arrays; such data is never re-bound afterwards); (d) each e in [a, b, ..] over an array literal "
+        "of 1-3 arrays (repeats allowed) or over a variable holding an array of arrays, body of 1-3 calls mostly "
+        "through e, or a mixin call with e as argument, executed for every element; (e) holders - var h = {k0: a, k1: "
+        "b} / [a, b] with 1-3 members (arrays, sometimes scalars), or arriving as an object / array of arrays in the "
+        "page data (35% of route cases); members are then written h.k0, h[\"k0\"], h[0] as receivers, arguments, "
+        "assignment sources, mixin arguments and loop elements; (f) method results: - var g = h.slice(j) (the copy "
+        "holds the same arrays) and - var x = h.pop(); (g) 20% of the array arguments / sources are wrapped in an "
+        "expression whose value they are: true ? a : b, false ? b : a, a || b and b && a (the logical forms only for "
+        "non-empty arrays outside replayed bodies: an empty array is false for the code). The flat program judged in "
+        "Coq (gen/c20.py flatten) erases the routes: every parameter of every call, every member of every holder and "
+        "every loop variable is a variable of its own bound by SPass (handed over: the same value), mixin bodies are "
+        "unfolded per call with fresh locals, block content is unfolded where the mixin places it, loop bodies once "
+        "per element. distribution.second_name_routes counts the routes, cases_array_changed_inside_mixin_read_by_caller "
+        "the cases in which a mixin body changes an array through a parameter or local. "
+        "30% of the cases are string histories: 2-4 receivers drawn from tiny alphabets (blank/tab/line "
+        "feed with a letter; one or two letters giving runs and self-overlaps; the neighbours @ [ ` { of the letter "
+        "ranges, digits, punctuation; regular-expression operators), 60% of their calls are String methods and a third "
+        "of those split; split separators: the one-blank separator (50% where the receiver holds white space; half of "
+        "the splits re-pick a receiver with leading, trailing or adjacent blanks, a tab or a line feed, or a "
+        "self-overlapping piece), single and doubled characters and 2-3 character pieces of the receiver, pieces that "
+        "overlap themselves ('aa' on 'aaa'), the receiver itself, a separator longer than the receiver, the empty "
+        "separator, separators held in variables; indexOf needles: the empty string (15%), pieces, the receiver, "
+        "longer than the receiver, the other letter case; charAt/slice indices inside, at the length, and beyond it "
+        "(length+2..6, 50, 99, 1000), slice starts down to -length; the pieces of split are array receivers of "
+        "the following calls, so a wrong element count shows in length/join/indexOf/pop. The same strings (40%) "
+        "also feed the array histories. The evidence field distribution.string_method_situations counts the calls in each "
+        "named situation. 10% of the cases end in one out-of-range / ill-typed / wrong-arity call; non-trivial = at "
+        "least 3 executed calls of which one mutates an array or splits a string; distinct by SHA-1 of the case")
+TRUSTED = [
+    "M is a hand-written reading of pugjs/types.go (Array/String methods) and of evalCall/evalArg/validateType in "
+    "pugjs/tpl_exec.go; reflect, Go slices/append, sort.Slice (modelled as a stable sort: it is an insertion sort up "
+    "to 12 elements; longer arrays with equal keys on different values are declined as unmodelled), strings.Index/"
+    "Split/ToUpper/ToLower (modelled by str_index/str_split/up_char/low_char), big.Float formatting (integers "
+    "below 10^10) are the Go runtime's, exercised by the correspondence runs only",
+    "the text a template writes between values ('|'), the HTML escaper (strings avoid & < > \" ' \\ |) and the pug "
+    "front end are outside this property: other properties cover them",
+    "S is JavaScript's Array.prototype / String.prototype on integers below 10^10, ASCII strings, booleans, null and "
+    "undefined, written from ECMA-262; no JavaScript engine is run. split (the SplitMatch loop), indexOf (smallest "
+    "matching position) and the case mappings (the 26 letter pairs) of S are definitions of their own, not the "
+    "helpers of M; C20_string_readings_agree proves the two readings equal for all strings and C20_split_join that "
+    "join(sep) undoes split(sep); the judge evaluates S's own definitions on the real code's output",
+    "route erasure is done by the generator (gen/c20.py Flat / flatten), not in Coq: that pug.js hands an array to a "
+    "mixin parameter, a loop variable, an object member, an array element, the value of ?: / || / && and the result "
+    "of slice / pop on the holder as THE SAME array object (SPass: the value itself), that a mixin's parameters and "
+    "locals are new variables per call, that block content runs in the caller's frame where `block` stands, and that "
+    "an each body runs once per element, is JavaScript's / pug's semantics read by hand; M's SPass (box: "
+    "__op__array / __op__map / Push convert the value, __tryindex / Member / Pop give the stored Object back) is a "
+    "reading of pugjs/runtime.go and transform_mixin.go / transform_each.go.  The holders themselves (the object "
+    "{k0: a}, the array [a, b]) and the loop / mixin machinery are not objects of the flat program: C03 (mixins bind "
+    "arguments per call) and C01 (expressions) own them; here they only carry arrays",
+]
+ASSUMPTIONS = [
+    "array elements and arguments are integers of magnitude below 10^10, ASCII strings, booleans and null; arrays "
+    "inside arrays as ELEMENTS of the arrays the methods are called on, printing an array itself, floats and non-ASCII "
+    "strings are outside the claim (arrays of arrays and objects appear as holders only: they are indexed, iterated, "
+    "sliced and popped, never joined, sorted or searched)",
+    "in-range means: splice/slice start in 0..length, charAt index >= 0 (any index at or beyond the length is in "
+    "range: ''), String.slice start >= -length (any start beyond the length is in range: ''), join/split/"
+    "String.indexOf arguments are strings (any string, the empty one included); String.slice with an end argument "
+    "is not modelled (such calls are declined as unmodelled); String.replace is not part of the property",
+    "second names: mixin bodies name only their parameters, their own locals and page data that is never re-bound "
+    "(a main-template '- var' is invisible inside a pugjs mixin - C03's subject); names bound inside a loop body or "
+    "block content are not used after it; a || b and b && a are used on non-empty arrays only (an empty array is "
+    "false for the code, true for JavaScript - outside this property); mixins are never given fewer arguments than "
+    "parameters; holders are not changed while a loop runs over them",
+]
+
+
+def pug_lines(nodes, ind=0):
+    """the template as pug-like text (evidence samples, replays)"""
+    out = []
+    pad = "  " * ind
+    for nd in nodes:
+        k = nd[0]
+        if k == 'code':
+            src = b'; '.join(tmpl.stmt_src(s) for s in nd[1]).decode(errors="replace")
+            out.append(pad + ("= " if nd[2] else "- ") + src)
+        elif k == 'mixin':
+            out.append(pad + "mixin %s(%s)" % (nd[1].decode(), ", ".join(p.decode() for p in nd[2])))
+            out += pug_lines(nd[3], ind + 1)
+        elif k == 'call':
+            out.append(pad + "+%s(%s)" % (nd[1].decode(), b", ".join(tmpl.js_src(a) for a in nd[2]).decode(errors="replace")))
+            out += pug_lines(nd[4], ind + 1)
+        elif k == 'mixinblock':
+            out.append(pad + "block")
+        elif k == 'each':
+            out.append(pad + "each %s%s in %s" % (nd[1].decode(), ", " + nd[2].decode() if nd[2] else "",
+                                                  tmpl.js_src(nd[3]).decode(errors="replace")))
+            out += pug_lines(nd[4], ind + 1)
+    return out
+
+
+ROUTE_OPS = ("mixin", "each", "hold", "rehold", "pop")
 
 
 class C20(Prop):
@@ -558,69 +1424,34 @@ class C20(Prop):
     prop_module = "Props.C20"
     prop_file = "Props/C20.v"
     coq_targets = ["Props/C20.vo", "Run/Judge_C20.vo"]
-    sizes = {"quick": 700, "thorough": 12000}
+    sizes = {"quick": 700, "thorough": 9000}
     shard = 125
     design_ref = "DESIGN.md section 6 C20, section 7 F-C20-a..f"
-    rule = ("one case = one template executed by a real Engine: 1-3 initial arrays (literals or []interface{} page data, "
-            "0-20 elements: integers, ASCII strings, booleans, null), native variables (- var i = 1), boxed page-data "
-            "scalars and strings, then a generated history of <= 30 (thorough <= 120) calls of push pop shift unshift sort "
-            "splice slice indexOf join length / length charAt indexOf slice split toUpperCase toLowerCase, each as "
-            "'- var rN = recv.m(args)', '= recv.m(args)' or '- recv.m(args)', arguments as literals, native and boxed "
-            "variables chosen in range by a plain simulation, results printed and results of splice/slice/split used as "
-            "new receivers, aliases by '- var x = y'; after every call join(',') and length of every live array variable "
-            "are printed. 35% of the cases are string histories: 2-4 receivers drawn from tiny alphabets (blank/tab/line "
-            "feed with a letter; one or two letters giving runs and self-overlaps; the neighbours @ [ ` { of the letter "
-            "ranges, digits, punctuation; regular-expression operators), 60% of their calls are String methods and a third "
-            "of those split; split separators: the one-blank separator (50% where the receiver holds white space; half of "
-            "the splits re-pick a receiver with leading, trailing or adjacent blanks, a tab or a line feed, or a "
-            "self-overlapping piece), single and doubled characters and 2-3 character pieces of the receiver, pieces that "
-            "overlap themselves ('aa' on 'aaa'), the receiver itself, a separator longer than the receiver, the empty "
-            "separator, separators held in variables; indexOf needles: the empty string (15%), pieces, the receiver, "
-            "longer than the receiver, the other letter case; charAt/slice indices inside, at the length, and beyond it "
-            "(length+2..6, 50, 99, 1000), slice starts down to -length; the pieces of split are array receivers of "
-            "the following calls, so a wrong element count shows in length/join/indexOf/pop. The same strings (40%) "
-            "also feed the array histories. The evidence field distribution.string_method_situations counts the calls in each "
-            "named situation. 10% of the cases end in one out-of-range / ill-typed / wrong-arity call; non-trivial = at "
-            "least 3 calls of which one mutates an array or splits a string; distinct by SHA-1 of the case")
-    trusted = [
-        "M is a hand-written reading of pugjs/types.go (Array/String methods) and of evalCall/evalArg/validateType in "
-        "pugjs/tpl_exec.go; reflect, Go slices/append, sort.Slice (modelled as a stable sort: it is an insertion sort up "
-        "to 12 elements; longer arrays with equal keys on different values are declined as unmodelled), strings.Index/"
-        "Split/ToUpper/ToLower (modelled by str_index/str_split/up_char/low_char), big.Float formatting (integers "
-        "below 10^10) are the Go runtime's, exercised by the correspondence runs only",
-        "the text a template writes between values ('|'), the HTML escaper (strings avoid & < > \" ' \\ |) and the pug "
-        "front end are outside this property: other properties cover them",
-        "S is JavaScript's Array.prototype / String.prototype on integers below 10^10, ASCII strings, booleans, null and "
-        "undefined, written from ECMA-262; no JavaScript engine is run. split (the SplitMatch loop), indexOf (smallest "
-        "matching position) and the case mappings (the 26 letter pairs) of S are definitions of their own, not the "
-        "helpers of M; C20_string_readings_agree proves the two readings equal for all strings and C20_split_join that "
-        "join(sep) undoes split(sep); the judge evaluates S's own definitions on the real code's output",
-    ]
-    assumptions = [
-        "array elements and arguments are integers of magnitude below 10^10, ASCII strings, booleans and null; arrays "
-        "inside arrays, printing an array itself, floats and non-ASCII strings are outside the claim",
-        "in-range means: splice/slice start in 0..length, charAt index >= 0 (any index at or beyond the length is in "
-        "range: ''), String.slice start >= -length (any start beyond the length is in range: ''), join/split/"
-        "String.indexOf arguments are strings (any string, the empty one included); String.slice with an end argument "
-        "is not modelled (such calls are declined as unmodelled); String.replace is not part of the property",
-    ]
+    rule = RULE
+    trusted = TRUSTED
+    assumptions = ASSUMPTIONS
     not_yet_proved = []
 
     def generate(self, rng, n, tier):
         cases = []
         self.stats = {"lit": 0, "native": 0, "boxed": 0}
         self.str_stats = {"string_histories": 0}
+        self.route_stats = {"route_histories": 0}
         maxops = 30 if tier == "quick" else 120
         for i in range(n):
             hostile = rng.random() < 0.10
             big = rng.random() < 0.15
-            stringy = rng.random() < 0.35
-            c, st = gen_case(rng, maxops if big else 10, hostile, stringy)
+            stringy = rng.random() < 0.30
+            routes = rng.random() < 0.35
+            c, st = gen_case(rng, maxops if big else 10, hostile, stringy, routes)
             for k in self.stats:
                 self.stats[k] += st["args"][k]
             self.str_stats["string_histories"] += stringy
+            self.route_stats["route_histories"] += routes
             for k, v in st["str"].items():
                 self.str_stats[k] = self.str_stats.get(k, 0) + v
+            for k, v in st["routes"].items():
+                self.route_stats[k] = self.route_stats.get(k, 0) + v
             cases.append(c)
         return cases
 
@@ -644,63 +1475,132 @@ class C20(Prop):
         else:
             cls, out = 2, b""
         return (b"{| inits := " + cq_list([init_coq(v, i) for v, i in case["inits"]]) +
-                b"; body := " + cq_list([stmt_coq(s) for s in case["body"]]) +
+                b"; body := " + cq_list([stmt_coq(s) for s in flatten(case)]) +
                 b"; go_class := %d; go_out := " % cls + cq_bytes(out) + b" |}")
 
     def nontrivial(self, case, obs):
-        calls = [s for s in case["body"] if s["op"] == "call" and not (s["mode"] == "print" and s["f"] in ("join", "length"))]
+        calls = [s for s in flatten(case) if s["op"] == "call" and not (s["mode"] == "print" and s["f"] in ("join", "length"))]
         return len(calls) >= 3 and any(s["f"] in MUTATING or s["f"] == "split" for s in calls)
 
     def sample(self, case, obs):
         nodes, data = template(case)
-        lines = []
-        for nd in nodes:
-            if nd[0] == 'code':
-                src = b'; '.join(tmpl.stmt_src(s) for s in nd[1]).decode()
-                lines.append(("= " if nd[2] else "- ") + src)
         out = unhx(obs["res"]["out"]).decode(errors="replace") if obs.get("load") == "ok" and obs["res"]["class"] == "ok" else None
-        return {"template": lines[:40], "data": tmpl.data_plain(data), "go_class": obs["res"]["class"] if obs.get("load") == "ok" else obs.get("load"),
+        return {"template": pug_lines(nodes)[:60], "data": tmpl.data_plain(data), "go_class": obs["res"]["class"] if obs.get("load") == "ok" else obs.get("load"),
                 "go_out": out[:300] if out is not None else None}
 
     def shrink(self, case):
+        """candidates, boldest first (the driver keeps the first that still fails and asks again): one second-name
+        statement alone with the print-out after it; unused mixins dropped; chunks of every statement list (main
+        template, mixin bodies, loop bodies, block contents) from halves down; on small cases single statements,
+        block contents, loop elements, arguments' wrappers, initial bindings, array elements"""
         body = case["body"]
-        # drop the tail, then single statements, then initial bindings, then array elements
-        for cut in (len(body) // 2, len(body) - 1):
-            if 0 < cut < len(body):
-                yield {"inits": case["inits"], "body": body[:cut]}
-        for i in range(len(body)):
-            yield {"inits": case["inits"], "body": body[:i] + body[i + 1:]}
+        bodies = all_bodies(case)
+        total = sum(len(b) for b in bodies)
+
+        def is_print(s):
+            return s["op"] == "printvar" or s["op"] == "call" and s["mode"] == "print"
+
+        def is_route(s):
+            return s["op"] in ROUTE_OPS or s["op"] == "alias" and s.get("wrap")
+        for i, s in enumerate(body):
+            if is_route(s):
+                j = i + 1
+                while j < len(body) and is_print(body[j]):
+                    j += 1
+                if j - i < len(body):
+                    yield dict(case, body=body[i:j])
+        used, todo = set(), [body]
+        while todo:
+            for s in todo.pop():
+                todo += sub_bodies(s)
+                if s["op"] == "mixin" and s["m"] not in used:
+                    used.add(s["m"])
+                    todo.append(case["mixins"][s["m"]]["body"])
+        if len(used) < len(case.get("mixins", [])):
+            c = copy.deepcopy(case)
+            remap = {m: i for i, m in enumerate(sorted(used))}
+            c["mixins"] = [c["mixins"][m] for m in sorted(used)]
+            for b in all_bodies(c):
+                for s in b:
+                    if s["op"] == "mixin":
+                        s["m"] = remap[s["m"]]
+            if not c["mixins"]:
+                del c["mixins"]
+            yield c
+        size = max(len(b) for b in bodies) // 2
+        floor = max(2, total // 16)
+        while size >= floor:
+            for bi, b in enumerate(bodies):
+                if len(b) > size:
+                    for i in range(0, len(b), size):
+                        c = copy.deepcopy(case)
+                        del all_bodies(c)[bi][i:i + size]
+                        yield c
+            size //= 2
+        if total > 60:
+            return
+        for bi, b in enumerate(bodies):
+            for si in range(len(b)):
+                c = copy.deepcopy(case)
+                del all_bodies(c)[bi][si]
+                yield c
+        for bi, b in enumerate(bodies):
+            for si, s in enumerate(b):
+                if s["op"] == "mixin" and s.get("block"):
+                    c = copy.deepcopy(case)
+                    del all_bodies(c)[bi][si]["block"]
+                    yield c
+                if s["op"] == "each" and "lit" in s["over"] and len(s["over"]["lit"]) > 1:
+                    for j in range(len(s["over"]["lit"])):
+                        c = copy.deepcopy(case)
+                        del all_bodies(c)[bi][si]["over"]["lit"][j]
+                        yield c
+                for ai, a in enumerate(s.get("args", []) if s["op"] in ("mixin", "call") else []):
+                    if a.get("wrap"):
+                        c = copy.deepcopy(case)
+                        del all_bodies(c)[bi][si]["args"][ai]["wrap"]
+                        yield c
         for i in range(len(case["inits"])):
-            yield {"inits": case["inits"][:i] + case["inits"][i + 1:], "body": body}
+            yield dict(case, inits=case["inits"][:i] + case["inits"][i + 1:])
+        if total > 25:
+            return
         for i, (v, ini) in enumerate(case["inits"]):
             if ini["k"] == "arr":
                 for j in range(len(ini["xs"])):
                     ni = dict(ini)
                     ni["xs"] = ini["xs"][:j] + ini["xs"][j + 1:]
-                    yield {"inits": case["inits"][:i] + [[v, ni]] + case["inits"][i + 1:], "body": body}
+                    yield dict(case, inits=case["inits"][:i] + [[v, ni]] + case["inits"][i + 1:])
 
     def model_expr(self):
         return "(model_says c, spec_says c)"
 
     def distribution(self, cases, obss):
         d = {"methods": {}, "modes": {}, "go_class": {}, "history_len": {"1-5": 0, "6-15": 0, "16-40": 0, "41+": 0},
-             "initial_arrays": {"lit": 0, "data": 0}, "aliases": 0,
+             "initial_arrays": {"lit": 0, "data": 0, "inside_page_data_object_or_array": 0}, "aliases": 0,
+             "handed_over_bindings": 0, "cases_with_a_route": 0, "cases_array_changed_inside_mixin_read_by_caller": 0,
              "argument_kinds": dict(getattr(self, "stats", {})),
-             "string_method_situations": dict(sorted(getattr(self, "str_stats", {}).items()))}
+             "string_method_situations": dict(sorted(getattr(self, "str_stats", {}).items())),
+             "second_name_routes": dict(sorted(getattr(self, "route_stats", {}).items()))}
         for c, o in zip(cases, obss):
             n = 0
-            for s in c["body"]:
+            for s in flatten(c):
                 if s["op"] == "alias":
                     d["aliases"] += 1
+                if s["op"] == "pass":
+                    d["handed_over_bindings"] += 1
                 if s["op"] != "call" or (s["mode"] == "print" and s["f"] in ("join", "length") and s["args"] in ([], [{"lit": L(",")}])):
                     continue
                 n += 1
                 d["methods"][s["f"]] = d["methods"].get(s["f"], 0) + 1
                 d["modes"][s["mode"]] = d["modes"].get(s["mode"], 0) + 1
             d["history_len"]["1-5" if n <= 5 else "6-15" if n <= 15 else "16-40" if n <= 40 else "41+"] += 1
+            d["cases_with_a_route"] += any(s["op"] in ROUTE_OPS or s["op"] == "alias" and s.get("wrap") for b in all_bodies(c) for s in b)
+            d["cases_array_changed_inside_mixin_read_by_caller"] += any(
+                s["op"] == "call" and s["f"] in MUTATING and not isinstance(s["recv"], int) and s["recv"][0] == "L"
+                for m in c.get("mixins", []) for s in m["body"])
             for v, i in c["inits"]:
                 if i["k"] == "arr":
-                    d["initial_arrays"][i["src"]] += 1
+                    d["initial_arrays"]["inside_page_data_object_or_array" if i.get("at") else i["src"]] += 1
             k = o["res"]["class"] if o.get("load") == "ok" else o.get("load")
             d["go_class"][k] = d["go_class"].get(k, 0) + 1
         return d
